@@ -39,6 +39,7 @@ def run(S):
     validate_corpus(S, 'imports', [l for l, _ in fi if l.startswith('C04:')], lambda: imports.native_sweep(S, 'C04'))
     # token adjacency: embedded parenthesised literals, and whole small documents through the real printer
     fa = adjacency.explore_embedded(S, want=('C04',))
+    fa += adjacency.explore_field_target(S, want=('C04',))
     adjacency.report(S, 'C04', fa)
     fd, _ = deep.explore(S, want=('C04',))
     deep.report(S, 'C04', fd)
